@@ -1386,7 +1386,10 @@ expression::
 pred_result
 pred_haschildrenp_die::result (value_die &a) const
 {
-  return pred_result (dwarf_haschildren (&a.get_die ()));
+  int ret = dwarf_haschildren (&a.get_die ());
+  if (ret < 0)
+    throw_libdw ();
+  return pred_result (ret);
 }
 
 std::string
